@@ -61,6 +61,8 @@ def _content(x, depth=0):
         return {str(k): _content(v, depth + 1) for k, v in x.items()}
     if isinstance(x, (list, tuple)):
         return [_content(v, depth + 1) for v in x]
+    if type(x).__name__.startswith("GenomicSequence") and hasattr(x, "_dict"):
+        return ["gseq", {str(k): _content(v, depth + 1) for k, v in x._dict.items()}]
     if hasattr(x, "to_dict") and hasattr(x, "genome_context"):
         return ["ga", {k: _content(np.asarray(v), depth + 1) for k, v in x.to_dict().items()}]
     if hasattr(x, "get_data") and hasattr(x, "genome_context"):
@@ -86,6 +88,7 @@ def _registry():
     from bionumpy.bnpdataclass import replace
     from bionumpy.encodings.alphabet_encoding import ACGTnEncoding
     from npstructures import RaggedArray
+    from bionumpy.genomic_data import GenomicSequence
 
     def ivs(rng, n=None, disjoint=False):
         n = n if n is not None else rng.randint(1, 6)
@@ -169,6 +172,15 @@ def _registry():
         "GenomicIntervals.merged": (lambda t: g.get_intervals(t).sorted().merged(1).get_data(), lambda r: (ivs(r),), False),
         "GenomicIntervals.extended_to_size": (lambda t: g.get_intervals(t, stranded=True).extended_to_size(5).get_data(), lambda r: (bed6(r),), False),
         "Genome.get_track+1": (lambda t: g.get_track(t) + 1, lambda r: (BedGraph(["chr1", "chr2"], np.array([0, 3]), np.array([5, 9]), np.array([1.5, -2.0])),), True),
+        # a sequence held in memory, asked for one interval on the minus strand / for several stranded intervals
+        "GenomicSequence.extract_intervals[one minus interval]": (
+            lambda gs, iv: gs.extract_intervals(iv, stranded=True).tolist(),
+            lambda r: (GenomicSequence.from_dict({"chr1": "ACGTTGCAAGTCCGTA", "chr2": "GGGTTTACAAC"}),
+                       Bed6(["chr1"], np.array([r.randint(0, 5)]), np.array([r.randint(8, 15)]), ["x"], np.array([0]), ["-"])), True),
+        "GenomicSequence.extract_intervals[stranded]": (
+            lambda gs, iv: gs.extract_intervals(iv, stranded=True).tolist(),
+            lambda r: (GenomicSequence.from_dict({"chr1": "ACGTTGCAAGTCCGTA", "chr2": "GGGTTTACAAC"}),
+                       Bed6(["chr1", "chr2"], np.array([r.randint(0, 5), 1]), np.array([r.randint(8, 15), 9]), ["x", "y"], np.array([0, 0]), ["-", "+"])), True),
         "GenomicArray[intervals]": (lambda a, t: [np.asarray(x.to_array()).tolist() for x in a[g.get_intervals(t)]],
                                     lambda r: (g.get_track(BedGraph(["chr1"], np.array([0]), np.array([45]), np.array([2]))), ivs(r)), False),
         "get_windows": (lambda t: g.get_locations(t).get_windows(flank=2).get_data(), lambda r: (LocationEntry(["chr1", "chr2"], np.array([1, 28])),), False),
